@@ -332,12 +332,12 @@ theorem pyInt_digits (ds : List Nat) (hne : ds ≠ []) (hd : AllDigits ds) :
 theorem pyInt_none (n : NumLit) (h : n.WF) (hni : ¬ (n.fp = none ∧ n.exp = none)) :
     pyIntOfText n.text = none := by
   have hws := isWs_numText n h
-  obtain ⟨d, s, hd, hhead⟩ := numText_head n h
+  obtain ⟨c0, s, hhead, hc0⟩ := numText_head n h
   obtain ⟨hne, hip, hfp, hexp⟩ := h
   have hsign : signOf n.text = (1, n.text) := by
     apply signOf_noSign
     intro c s' hc
-    rw [hhead] at hc; cases hc; exact digitChar_ne_sign hd
+    rw [hhead] at hc; cases hc; exact hc0.ne_sign
   have hrest : ∃ c s, fracText n.fp ++ expText n.exp = c :: s ∧ Stop (c :: s) := by
     cases hf : n.fp with
     | some f => exact ⟨'.', _, rfl, stop_dot _⟩
@@ -346,9 +346,13 @@ theorem pyInt_none (n : NumLit) (h : n.WF) (hni : ¬ (n.fp = none ∧ n.exp = no
       | none => exact absurd ⟨hf, he⟩ hni
       | some x => obtain ⟨ng, ds⟩ := x; exact ⟨'E', _, rfl, stop_E _⟩
   obtain ⟨c, s', hcs, hstop⟩ := hrest
-  have hdg : digitsUS n.text = some (digitsVal n.ip, n.ip.length, c :: s') := by
-    rw [numText_eq, hcs]; exact digitsUS_digits n.ip hne hip _ hstop
-  simp only [pyIntOfText, strip_nonws _ hws, hsign, hdg]
+  by_cases hi : n.ip = []
+  · have hdg : digitsUS n.text = none := by
+      rw [numText_eq, hcs, hi]; exact digitsUS_stop _ hstop
+    simp only [pyIntOfText, strip_nonws _ hws, hsign, hdg]
+  · have hdg : digitsUS n.text = some (digitsVal n.ip, n.ip.length, c :: s') := by
+      rw [numText_eq, hcs]; exact digitsUS_digits n.ip hi hip _ hstop
+    simp only [pyIntOfText, strip_nonws _ hws, hsign, hdg]
 
 theorem pow10_zpow (k : Int) : Model.Value.pow10 k = (10 : Rat) ^ k := by
   unfold Model.Value.pow10
@@ -377,7 +381,7 @@ theorem textNumber_lit (n : NumLit) (h : n.WF) (hfin : LitFinite n) :
   · have ht : n.text = n.ip.map digitChar := by
       rw [numText_eq, hi.1, hi.2]; simp [fracText, expText]
     refine ⟨.int (digitsVal n.ip), ?_, ?_, fun _ => rfl⟩
-    · simp [textNumber, ht, pyInt_digits n.ip h.1 h.2.1]
+    · simp [textNumber, ht, pyInt_digits n.ip (by simpa [NumLit.fdigits, hi.1] using h.1) h.2.1]
     · simp [litValue, Num.toRat, NumLit.fdigits, hi.1, hi.2, expInt]
   · have hq : (1 : Int) * ((digitsVal (n.ip ++ n.fdigits) : Nat) : Rat) *
         Model.Value.pow10 (Lemmas.C02.expVal n.exp - (n.fdigits.length : Nat)) = litValue n := by
